@@ -62,6 +62,65 @@ def suite_types(ctx):
                     s.fail({'site': call.name, 'input': '%s=%r' % (p.name, bv), 'class': cls, 'observed': 'connection touched, sent %s' % sends,
                             'required': 'rejected before anything is sent'})
                 s.count(type(bv).__name__)
+    # the numbers of a MemoryLocation: anything that is not an integer (a float, integral or not, a Decimal, a Fraction, a numeric string, bytes) is out of
+    # the domain - refused by the constructor or by the call, never converted to some integer and sent
+    import decimal
+    import fractions
+    from udsoncan import MemoryLocation, DynamicDidDefinition
+    odd = [4660.75, 4660.0, decimal.Decimal('4660.9'), decimal.Decimal(4660), fractions.Fraction(9321, 2), '4660', b'\x12\x34', [4660], None]
+    kinds = [('read_memory_by_address', lambda c, m: c.read_memory_by_address(m)), ('write_memory_by_address', lambda c, m: c.write_memory_by_address(m, b'\x01\x02\x03\x04')),
+             ('request_download', lambda c, m: c.request_download(m)), ('request_upload', lambda c, m: c.request_upload(m)),
+             ('dynamically_define_did', lambda c, m: c.dynamically_define_did(0xF200, m))]
+    for name, fn in kinds:
+        for which in ('address', 'memorysize'):
+            for bv in odd:
+                for formats in ((None, None), (16, 8)):
+                    client, conn = cl.make_client(cl.Cfg(rt=4, p2=2, p2s=2))
+
+                    def go():
+                        m = MemoryLocation(bv, 4, *formats) if which == 'address' else MemoryLocation(0x1234, bv, *formats)
+                        return fn(client, m)
+                    cl.observe_outer(conn, go)
+                    s.evaluations += 1
+                    s.distinct.add('%s:MemoryLocation.%s:%s' % (name, which, type(bv).__name__))
+                    s.count('MemoryLocation ' + type(bv).__name__)
+                    if conn.log:
+                        s.fail({'site': name, 'input': 'MemoryLocation(%s=%r, formats %s)' % (which, bv, formats), 'class': 'wrong type',
+                                'observed': 'connection touched, sent %s' % [o[1].hex() for o in conn.log if o[0] == 'send'], 'required': 'rejected before anything is sent'})
+    # byte strings given as another bytes-like object: refused, or taken for exactly the bytes it holds - what is sent for x is what is sent for bytes(x), and
+    # what is refused as bytes is refused as any other spelling of the same bytes (a view whose len() is not its byte count included)
+    import array
+    for call in entries.default_calls():
+        sig = inspect.signature(getattr(Client, call.name))
+        params = list(sig.parameters.values())[1:]
+        args, kwargs = call.fresh_args()
+        for i, p in enumerate(params):
+            if p.annotation not in (bytes, typing.Optional[bytes]):
+                continue
+            given = args[i] if i < len(args) else kwargs.get(p.name)
+            if not isinstance(given, bytes):
+                continue
+            even = given if len(given) % 2 == 0 else given + b'\x00'
+            spellings = [('bytearray', bytearray(given)), ('memoryview', memoryview(given)), ('memoryview of 16-bit items', memoryview(array.array('H', even))),
+                         ('memoryview of 0x8000 16-bit items', memoryview(array.array('H', [0x4142] * 0x8000)))]
+            for label, x in spellings:
+                outs = []
+                for val in (bytes(x), x):
+                    a2, k2 = call.fresh_args()
+                    a2 = list(a2)
+                    if i < len(a2):
+                        a2[i] = val
+                    else:
+                        k2[p.name] = val
+                    client, conn = cl.make_client(cl.Cfg(rt=4, p2=2, p2s=2), extra=call.config())
+                    cl.observe_outer(conn, lambda: getattr(client, call.name)(*a2, **k2))
+                    outs.append([o[1] for o in conn.log if o[0] == 'send'])
+                s.evaluations += 1
+                s.distinct.add('%s:%s:%s' % (call.name, p.name, label))
+                s.count('bytes-like: ' + label)
+                if outs[1] and outs[1] != outs[0]:
+                    s.fail({'site': call.name, 'input': '%s given as %s holding %d bytes' % (p.name, label, len(bytes(x))), 'class': 'bytes-like argument',
+                            'observed': 'sent %s' % outs[1][0].hex()[:80], 'required': ('what the same bytes give: ' + outs[0][0].hex()[:80]) if outs[0] else 'refused, as the same bytes are (nothing sent)'})
     return s
 
 
